@@ -4,6 +4,7 @@ package jp
 
 import (
 	"encoding/json"
+	"sort"
 )
 
 // TargetRest is used by the MatchHandler to associate a Target and Rest of a
@@ -138,9 +139,7 @@ func (h *MatchHandler) objArrayEnd() {
 	h.Path = h.Path[:len(h.Path)-1]
 	if 0 < len(h.Stack) {
 		if len(h.Stack) == 1 {
-			if v, p, ok := h.checkRest(h.Stack[0]); ok {
-				h.OnData(p, v)
-			}
+			h.checkRest(h.Stack[0])
 		}
 		v := h.Stack[len(h.Stack)-1]
 		h.Stack = h.Stack[:len(h.Stack)-1]
@@ -164,24 +163,63 @@ func (h *MatchHandler) incNth() {
 	}
 }
 
-func (h *MatchHandler) checkRest(v any) (any, Expr, bool) {
-	var tr *TargetRest
+// checkRest delivers the collected value v if a target without a filter
+// matches the current path. If only targets with a filter match then every
+// element the rest of those targets selects in v is delivered.
+func (h *MatchHandler) checkRest(v any) {
+	var rests []*TargetRest
 	for _, t := range h.Targets {
 		if PathMatch(t.Target, h.Path) {
-			tr = t
-			break
+			if t.Rest == nil {
+				h.OnData(h.Path, v)
+				return
+			}
+			rests = append(rests, t)
 		}
 	}
-	p := h.Path
-	if tr != nil && tr.Rest != nil {
-		locs := tr.Rest.Locate(v, 1)
-		if len(locs) == 0 {
-			return nil, p, false
-		}
-		p = append(p, locs[0]...)
-		v = tr.Rest.First(v)
+	var locs []Expr
+	for _, t := range rests {
+		locs = append(locs, t.Rest.Locate(v, 0)...)
 	}
-	return v, p, true
+	// Deliver array elements in the order of the document. The order of
+	// object members is not known once collected so those are by key.
+	sort.Slice(locs, func(i, j int) bool { return locLess(locs[i], locs[j]) })
+	for i, loc := range locs {
+		if 0 < i && !locLess(locs[i-1], loc) {
+			continue // selected by more than one target
+		}
+		p := make(Expr, 0, len(h.Path)+len(loc))
+		p = append(append(p, h.Path...), loc...)
+		h.OnData(p, loc.First(v))
+	}
+}
+
+// locLess orders normalized paths, indices by number and keys by name.
+func locLess(a, b Expr) bool {
+	for i, af := range a {
+		if len(b) <= i {
+			return false
+		}
+		switch ta := af.(type) {
+		case Nth:
+			if tb, ok := b[i].(Nth); ok {
+				if ta != tb {
+					return ta < tb
+				}
+				continue
+			}
+			return true
+		case Child:
+			if tb, ok := b[i].(Child); ok {
+				if ta != tb {
+					return ta < tb
+				}
+				continue
+			}
+			return false
+		}
+	}
+	return len(a) < len(b)
 }
 
 func (h *MatchHandler) pathMatch(leaf bool) bool {
